@@ -110,6 +110,28 @@ def run(chk, prog):
         chk.check(not bad, "R1", A.loc(mainf, n), "output block: %s.%s() writes nothing the simulation reads (state writes: %s)" % (e["var"], e["method"], bad),
                   "observer-writes-state:%s.%s:%s" % (e["var"], e["method"], bad))
     chk.floor("R1-observer-calls", n_obs, 10)
+    # the same statement without a hand-written state table: nothing the output block may write is read by a call of the
+    # simulation part of the loop (reads that a call overwrites itself first - its own outputs - do not count)
+    loop_ids0 = {y["id"] for y in A.walk(loop["body"])}
+    from .. import fresh as Fr
+    w_obs = {}
+    for bid, i, n, e in ev:
+        if n["id"] in ob_ids:
+            for l in e["may_writes"]:
+                w_obs.setdefault(Fr.norm_loc(l), []).append("%s.%s" % (e["var"], e["method"]))
+    nsim = 0
+    for bid, i, n, e in sorted(ev, key=lambda t: t[2]["id"]):
+        if n["id"] not in loop_ids0 or n["id"] in ob_ids:
+            continue
+        nsim += 1
+        own = {Fr.norm_loc(l) for l in e["may_writes"]}
+        # reads of locations the call itself (re)writes are its own outputs, except containers it only appends to
+        ext_reads = {Fr.norm_loc(l) for l in e["reads"] if not any(Fr.covers(w, Fr.norm_loc(l)) for w in own) or l[1] == "_past_modulation"}
+        hit = sorted({w for r in ext_reads for w in w_obs if Fr.covers(w, r) or Fr.covers(r, w)}, key=str)
+        chk.check(not hit, "R1", A.loc(mainf, n), "%s.%s() (simulation part of the step) reads nothing the output block writes (%s)"
+                  % (e["var"], e["method"], ["%s.%s%s written by %s" % (k[0], k[1], "" if k[2] is None else "[%s]" % k[2], sorted(set(w_obs[k]))) for k in hit]),
+                  "sim-reads-observer-write:%s.%s:%s" % (e["var"], e["method"], ["%s.%s" % (k[0], k[1]) for k in hit]))
+    chk.floor("R1-simulation-calls", nsim, 10)
     # statements of the output block that are not calls on objects: plain assignments to locals
     for x, lhs, op, rhs in A.assignments_in(ob["then"]):
         d = A.declref(lhs)
